@@ -40,14 +40,14 @@ enum Task {
 #[derive(Clone, Debug)]
 enum Rb { Req(u64, Expr), Map(Box<Rb>, u64), ThenReq(Box<Rb>, u64) }
 #[derive(Clone, Debug)]
-enum Sb { Str(u64, Expr), Map(Box<Sb>, u64), ThenReq(Box<Sb>, u64), OfReq(Box<Rb>, u64) }
+enum Sb { Str(u64, Expr), Map(Box<Sb>, u64), ThenReq(Box<Sb>, u64), OfReq(Box<Rb>, u64), ThenStr(Box<Sb>, u64) }
 impl Rb {
     fn coq(&self) -> String { match self { Rb::Req(t, e) => format!("(RbReq {} {})", t, e.coq()), Rb::Map(r, n) => format!("(RbMap {} {})", r.coq(), n), Rb::ThenReq(r, t) => format!("(RbThenReq {} {})", r.coq(), t) } }
     fn size(&self) -> usize { match self { Rb::Req(..) => 1, Rb::Map(r, _) | Rb::ThenReq(r, _) => 1 + r.size() } }
 }
 impl Sb {
-    fn coq(&self) -> String { match self { Sb::Str(t, e) => format!("(SbStr {} {})", t, e.coq()), Sb::Map(r, n) => format!("(SbMap {} {})", r.coq(), n), Sb::ThenReq(r, t) => format!("(SbThenReq {} {})", r.coq(), t), Sb::OfReq(r, t) => format!("(SbOfReq {} {})", r.coq(), t) } }
-    fn size(&self) -> usize { match self { Sb::Str(..) => 1, Sb::Map(r, _) | Sb::ThenReq(r, _) => 1 + r.size(), Sb::OfReq(r, _) => 1 + r.size() } }
+    fn coq(&self) -> String { match self { Sb::Str(t, e) => format!("(SbStr {} {})", t, e.coq()), Sb::Map(r, n) => format!("(SbMap {} {})", r.coq(), n), Sb::ThenReq(r, t) => format!("(SbThenReq {} {})", r.coq(), t), Sb::OfReq(r, t) => format!("(SbOfReq {} {})", r.coq(), t), Sb::ThenStr(r, t) => format!("(SbThenStr {} {})", r.coq(), t) } }
+    fn size(&self) -> usize { match self { Sb::Str(..) => 1, Sb::Map(r, _) | Sb::ThenReq(r, _) | Sb::ThenStr(r, _) => 1 + r.size(), Sb::OfReq(r, _) => 1 + r.size() } }
 }
 #[derive(Clone, Debug)]
 enum Cmd {
@@ -289,6 +289,8 @@ fn build_sb(s: &Sb, env: &[u64]) -> SBld {
             SBld::new(move |ctx| inner.then_request(move |v| C::request_from_shell(Op { tag: tg, val: v })).into_stream(ctx).boxed()) }
         Sb::OfReq(r, tg) => { let inner = build_rb(r, env); let tg = *tg;
             SBld::new(move |ctx| inner.then_stream(move |v| C::stream_from_shell(Op { tag: tg, val: v })).into_stream(ctx).boxed()) }
+        Sb::ThenStr(r, tg) => { let inner = build_sb(r, env); let tg = *tg;
+            SBld::new(move |ctx| inner.then_stream(move |v| C::stream_from_shell(Op { tag: tg, val: v })).into_stream(ctx).boxed()) }
     }
 }
 fn build(c: &Cmd, env0: &Env, aborts: &Aborts) -> C {
@@ -423,7 +425,8 @@ impl Gen {
                            for _ in 0..self.rng.below(3) { r = if self.rng.coin(1, 2) { Rb::Map(Box::new(r), 1 + self.rng.below(3)) } else { Rb::ThenReq(Box::new(r), self.tag()) }; }
                            let e = self.evtag(); Cmd::SendR(r, e) }
                     9 | 10 => { let mut s = if self.rng.coin(1, 3) { Sb::OfReq(Box::new(Rb::Req(self.tag(), self.expr(nvars))), self.tag()) } else { Sb::Str(self.tag(), self.expr(nvars)) };
-                           for _ in 0..self.rng.below(3) { s = if self.rng.coin(1, 2) { Sb::Map(Box::new(s), 1 + self.rng.below(3)) } else { Sb::ThenReq(Box::new(s), self.tag()) }; }
+                           let mut flat = false;
+                           for _ in 0..self.rng.below(3) { s = match self.rng.below(5) { 0 | 1 => Sb::Map(Box::new(s), 1 + self.rng.below(3)), 2 | 3 if !flat => Sb::ThenReq(Box::new(s), self.tag()), _ => { flat = true; Sb::ThenStr(Box::new(s), self.tag()) } }; }
                            let e = self.evtag(); Cmd::SendS(s, e) }
                     0 => Cmd::New(Task::Ret, vec![]),
                     1 => { let t = self.evtag(); Cmd::New(Task::Emit(t, Expr::K(self.rng.below(4)), Box::new(Task::Ret)), vec![]) }
@@ -1040,6 +1043,19 @@ fn main() {
     let only: Option<usize> = args.get(3).and_then(|s| s.parse().ok());
     let mode: String = args.get(4).cloned().unwrap_or_else(|| "mix".into());
     if mode == "enum" { run_enum(count.max(1), seed as usize); return; }
+    if mode == "mix" && only.is_none() {
+        // fixed witness of a recorded finding (KNOWN_FINDINGS.txt, class flat_task_never_evicted): then_stream on a
+        // stream keeps the task's waker inside flatten_unordered, so when the one-shot request upstream of it is
+        // dropped the task is never evicted and the command never reports done
+        let c = Cmd::SendS(Sb::ThenStr(Box::new(Sb::OfReq(Box::new(Rb::Req(1, Expr::K(3))), 2)), 4), 104);
+        let fixed = [Action::Effects, Action::Events, Action::IsDone, Action::DropReq(1, 3, 0), Action::Effects, Action::Events, Action::IsDone];
+        let mut rng = Rng::new(1);
+        let (acts, obs) = run_direct(&c, &mut rng, &[], 0, Some(&fixed), false);
+        let mut h = HashMap::new(); c.hist(&mut h);
+        let mut ah: HashMap<&str, u64> = HashMap::new(); for a in &acts { *ah.entry(a.name()).or_default() += 1; }
+        println!("{{\"idx\":{},\"seed\":{},\"drained\":true,\"host\":\"direct\",\"prog\":{},\"handlers\":\"[]\",\"acts\":{},\"impl\":{},\"size\":{},\"depth\":{},\"hist\":{:?},\"ahist\":{:?},\"witness\":true}}",
+            count, seed, json_str(&c.coq()), json_str(&coq_list(acts.iter().map(|a| a.coq()).collect())), json_str(&coq_list(obs)), c.size(), c.depth(), h, ah);
+    }
     for idx in 0..count {
         // one independent generator state per case so that a single case can be regenerated
         let mut g = Gen { rng: Rng::new(seed.wrapping_mul(1_000_003).wrapping_add(idx as u64)), next_tag: 0, next_name: 0, names: vec![], ev_tags: vec![], legacy: false, scope: vec![], mix: false };
